@@ -24,7 +24,7 @@ META = dict(
         quick="lists of 2 and 3 graphs drawn from the shapes {K1, K2, 2K1, P3, K3, K2+K1} plus three all-carbon 4-chains with symbolic bond orders and three all-carbon 5-rings with exactly two double bonds each (equal composition, different placement) (equal shapes with independent "
               "symbolic labels, so duplicates, relabelled copies and near-misses all arise as label assignments); element "
               "in {C,N}, charge in {0,1}, order in {1,2}; pre-grouping attribute None or the node count; every list "
-              "order (solver-chosen permutation); graphs on disjoint node ids and on one shared id set; representative library in arrival and in reversed order; batch sizes 1..m and one-shot; incremental lib_check; additionally a few two-/three-atom shards with charges in {-2,-1}: different labels whose hash() values coincide in CPython.",
+              "order (solver-chosen permutation); graphs on disjoint node ids and on one shared id set; representative library in arrival and in reversed order; batch sizes 1..m and one-shot; incremental lib_check; triangles numbered from 0; additionally a few two-/three-atom shards with charges in {-2,-1}: different labels whose hash() values coincide in CPython.",
         thorough="lists of up to 4 graphs",
     ),
     outside=["GML-string rules through the optional 'mod' backend", "lists longer than 4, graphs > 3 nodes",
@@ -52,7 +52,7 @@ def partition(classes):
     return {frozenset(s) for s in d.values()}
 
 
-def h_cluster(E, shapes, use_attr, same_ids=False, carbon_only=False, doubles=None, neg=False, free_attr=False):
+def h_cluster(E, shapes, use_attr, same_ids=False, carbon_only=False, doubles=None, neg=False, free_attr=False, zero=False):
     from synkit.Graph.Matcher.graph_cluster import GraphCluster
     from synkit.Graph.Matcher.batch_cluster import BatchCluster
 
@@ -62,7 +62,7 @@ def h_cluster(E, shapes, use_attr, same_ids=False, carbon_only=False, doubles=No
         n, es = POOL[sname]
         g, _ = sym_mol(E, "g%d" % i, n, es, elements=("C",) if carbon_only else ("C", "N"), hcounts=(0,),
                        charges=(-2, -1) if neg else ((0,) if carbon_only else (0, 1)), orders=(1, 2),
-                       node_ids=[(0 if same_ids else 10 * i) + k + 1 for k in range(n)])
+                       node_ids=[(0 if same_ids else 10 * i) + k + (0 if zero else 1) for k in range(n)])
         if doubles is not None:
             # exactly `doubles` double bonds per graph: same composition, different placement
             from symx import COUNT
@@ -189,6 +189,9 @@ def shards(tier, seed):
         triples += [["K3", "K3", "K3"], ["K2K1", "K2K1", "K2K1"], ["K3", "P3", "K3"]]
     sh.append(dict(h="cluster", params=dict(shapes=["P4", "P4", "P4"], use_attr=False, carbon_only=True)))
     sh.append(dict(h="cluster", params=dict(shapes=["C5", "C5", "C5"], use_attr=False, carbon_only=True, doubles=2)))
+    # node ids starting at 0 (nx.convert_node_labels_to_integers): ring-shaped centres
+    sh.append(dict(h="cluster", params=dict(shapes=["K3", "K3", "K3"], use_attr=False, same_ids=True, zero=True, carbon_only=True)))
+    sh.append(dict(h="cluster", params=dict(shapes=["K3", "K3"], use_attr=True, zero=True, carbon_only=True)))
     # charges -1 / -2: different labels whose hash() values coincide in CPython
     sh.append(dict(h="cluster", params=dict(shapes=["K2", "K2", "K2"], use_attr=False, carbon_only=True, neg=True)))
     sh.append(dict(h="cluster", params=dict(shapes=["K1", "K1"], use_attr=True, carbon_only=True, neg=True)))
